@@ -98,6 +98,7 @@ def _mk_statement_method(stream_cls: str, method: str, arity: int) -> Any:
         params = {"self": OBJ(f"{SS}:{stream_cls}"), "terms": TUP(*[ADTS("gterm")] * arity)}
         result = OPT(MSG("RdfStreamFrame"))
         linear = True
+        shards = 6 if arity == 3 else 3      # one worker per variant
         modifies = ["self.encoder.names", "self.encoder.prefixes", "self.encoder.datatypes", "self.repeated_terms", "self.flow.data"]
         # one verification per kind of flow the stream may hold: bounded (emits on size) and the others (never do)
         variants = [{"self": OBJ(f"{SS}:{stream_cls}")}, {"self": OBJ(f"{SS}:{stream_cls}@manual")},
